@@ -191,7 +191,60 @@ def meets_spec(op, code, spec, roles=None):
             if bucket_means(sel, b) == got:
                 return True, ""
         return False, "not the uniform bucket means of the lines in range for any bucket size"
+    if spec.startswith("~sub "):
+        parts = spec.split(" ", 2)
+        frm = int(parts[1].split("=")[1])
+        full = parse_entries(parts[2]) if len(parts) > 2 else []
+        got = parse_entries(code) if code.startswith("ok") else None
+        if got is None:
+            return False, "with consent the read must return lines, not " + code[:40]
+        # sublist of the genuine lines, in order
+        it = iter(full)
+        if not all(any(g == f for f in it) for g in got):
+            return False, "returned a line that was never appended (fabricated or re-timed)"
+        need = full[frm:]
+        if need and got[-len(need):] != need:
+            return False, "did not resume at the next intact section"
+        return True, ""
+    if spec.startswith("~readnc"):
+        parts = spec.split(" ", 6)
+        kv = dict(x.split("=", 1) for x in parts[1:6])
+        n, p = int(kv["n"]), int(kv["p"])
+        log = parse_entries(parts[6]) if len(parts) > 6 else []
+        got = parse_entries(code) if code.startswith("ok") else None
+        if got is None:
+            return (is_empty_result(code) and not select(log, kv["s"], kv["e"])), "expected bucket means of one stored level"
+        if len(got) > 2 * n:
+            return False, f"more than 2n = {2 * n} samples"
+        if any(a[0] >= b[0] for a, b in zip(got, got[1:])):
+            return False, "timestamps not strictly increasing"
+        levels = [log] + [bucket_means(log, int(B)) for B in kv["caches"].split(",") if B]
+        for lv in levels:
+            sel = select(lv, kv["s"], kv["e"])
+            if got == []:
+                return True, ""
+            for b in range(1, len(sel) + 1):
+                if bucket_means(sel, b) == got:
+                    return True, ""
+        if got and any(not in_bounds(t, kv["s"], kv["e"]) for t, _ in got):
+            return False, "sample outside the requested bounds"
+        return False, "not the uniform bucket means of any stored level's lines in range"
     return True, ""
+
+
+def in_bounds(t, s, e):
+    ok = True
+    if s != "U":
+        k, v = s.split(":")
+        ok = ok and (t >= int(v) if k == "I" else t > int(v))
+    if e != "U":
+        k, v = e.split(":")
+        ok = ok and (t <= int(v) if k == "I" else t < int(v))
+    return ok
+
+
+def select(entries, s, e):
+    return [x for x in entries if in_bounds(x[0], s, e)]
 
 
 def canon_pair(code, model, spec):
@@ -237,6 +290,20 @@ def judge(script, proj, timeout=120, audit=False):
     res.nops = len(ops)
     code, cstat = run_code(script, timeout=timeout, audit=audit)
     model, spec, mstat = run_model(script, audit=audit)
+    fs_code, fs_model = [], []
+    if audit:
+        def split(lines):
+            outs, tags = [], []
+            for l in lines:
+                if " #fs=" in l:
+                    a, b = l.rsplit(" #fs=", 1)
+                else:
+                    a, b = l, "?"
+                outs.append(a)
+                tags.append(b)
+            return outs, tags
+        code, fs_code = split(code)
+        model, fs_model = split(model)
     res.code_out, res.model_out, res.spec_out = code, model, spec
     if mstat != "ok" or len(model) != len(ops) or len(spec) != len(ops):
         res.kind = "infra"
@@ -259,6 +326,25 @@ def judge(script, proj, timeout=120, audit=False):
         if proj["ops"] is not None and cmd not in proj["ops"]:
             continue
         res.checked += 1
+        if proj.get("fsaudit"):
+            fc = fs_code[i] if i < len(fs_code) else "?"
+            fm = fs_model[i] if i < len(fs_model) else "?"
+            if cmd in ("push", "pushrun"):
+                okfs = fc in ("same", "append")
+            else:
+                okfs = fc == "same"
+            if not okfs:
+                res.kind = "prop"
+                res.op_index, res.op, res.code, res.model, res.spec = i, op, c + " #fs=" + fc, m + " #fs=" + fm, "files unchanged" if cmd not in ("push", "pushrun") else "files only grow at the end"
+                res.why = "the call changed files in a way the property forbids"
+                res.model_agrees = (fc == fm)
+                return res
+            if fc != fm:
+                res.kind = "corr"
+                res.op_index, res.op, res.code, res.model, res.spec = i, op, c + " #fs=" + fc, m + " #fs=" + fm, s
+                res.why = "implementation and model change files differently"
+                return res
+            continue
         roles = proj.get("roles") if cmd == "files" else None
         ok_spec, why = meets_spec(op, c, s, roles)
         if cmd == "files":
